@@ -31,13 +31,16 @@ def gen_cases(tier, seed):
         yield "exh_strings", {"len": 3, "first": [a, min(58, a + 4)]}
     for i in range(60 if q else 1200):
         yield "mutants", {"salt": rng.getrandbits(32), "n": 40}
+    for i in range(40 if q else 600):
+        yield "cli", {"salt": rng.getrandbits(32), "fmt": ["raw", "hex", "bin"][i % 3], "check": i % 2 == 0}
+    yield "arg_types", {"salt": rng.getrandbits(32)}
     for i in range(10 if q else 100):
         yield "short_strings", {"salt": rng.getrandbits(32), "n": 300}
 
 
 def required(tier):
     return {"rt.decided": 60000, "rt.class.leading_zeros": 2000, "rt.class.empty": 1, "str.decided": 100000,
-            "str.ref_accepts": 2000, "str.class.outside_alphabet": 3000, "str.class.non_ascii": 500, "str.class.shorter_than_checksum": 1000}
+            "str.ref_accepts": 2000, "str.class.outside_alphabet": 3000, "str.class.non_ascii": 500, "str.class.shorter_than_checksum": 1000, "cli.encoded": 30, "argtypes.calls": 100}
 
 
 def exhaustive(tier, counts):
@@ -229,6 +232,44 @@ def run_case(kind, params, ctx):
                         cls = "non_ascii"
                 _string(ctx, bytes(t), cls)
         ctx.nontrivial()
+        return
+    if kind == "cli":
+        from . import clihelp
+        ln = rng.choice([0, 1, 2, 20, 21, 33, 64])
+        data = clihelp.edgy(rng, ln) if rng.random() < 0.7 else (b"\x00" * rng.choice([1, 3]) + rand_bytes(rng, ln))
+        fmt, chk = params["fmt"], params["check"]
+        exp = r58.check_encode(data) if chk else r58.encode(data)
+        r = clihelp.run(["base58"] + (["--check"] if chk else []) + [clihelp.fmt_flag(fmt)], clihelp.rep(data, fmt))
+        ctx.count("cli.encoded")
+        ctx.seen("cli", (data, fmt, chk))
+        cls = f"fmt:{fmt}/{'check' if chk else 'plain'}"
+        if not r["ok"] or r["out"] != exp:
+            ctx.violation(f"cli/encode-wrong/{cls}", f"bits base58 ({fmt} input {data.hex()!r}) printed {r['out'][:60]!r} (ret {r['ret']!r}), reference {exp!r}")
+            return
+        # `bits base58 --decode` has no -0 flag: the output format comes from the configuration (default hex)
+        r2 = clihelp.run(["base58", "--decode"] + (["--check"] if chk else []), exp)
+        got = clihelp.parse_out(r2["out"], "hex")
+        if not r2["ok"] or got != data:
+            ctx.violation(f"cli/decode-wrong/{'check' if chk else 'plain'}", f"bits base58 --decode of {exp!r} gave {r2['out'][:60]!r} (ret {r2['ret']!r}, exit {r2['exit']!r}), expected {data.hex()}")
+        return
+    if kind == "arg_types":
+        import bits.base58 as b58
+        for _ in range(60):
+            data = rand_bytes(rng, rng.randrange(0, 40))
+            for typ in (bytearray, memoryview):
+                arg = typ(bytearray(data))
+                keep = bytes(arg)
+                ctx.count("argtypes.calls")
+                ctx.seen("argt", (data, typ.__name__))
+                try:
+                    e1 = bytes(b58.base58encode(arg)) if typ is bytearray else None
+                    e2 = bytes(b58.base58check(arg)) if typ is bytearray else None
+                except Exception:
+                    continue     # refusing a non-bytes buffer is fine
+                if bytes(arg) != keep:
+                    ctx.violation(f"argument-mutated/{typ.__name__}", f"base58encode/base58check changed the caller's buffer {keep.hex()} -> {bytes(arg).hex()}")
+                if e1 is not None and (e1 != r58.encode(data) or e2 != r58.check_encode(data)):
+                    ctx.violation(f"encode-wrong/{typ.__name__}-argument", f"{data.hex()}")
         return
     if kind == "short_strings":
         for i in range(params["n"]):
